@@ -275,6 +275,10 @@ func genLoop(r *rand.Rand, b *strings.Builder, id *int, depth int, outerVar stri
 	if form == "while-continue" && (m.Extra == "continue" || !up || typ != "int") {
 		form = "top"
 	}
+	if form == "top" && typ == "int" && up && m.Extra != "continue" && L%3 == 0 {
+		// loops with two back edges are not left to chance: every third eligible loop is one
+		form = "while-continue"
+	}
 	if m.Extra == "continue" && form == "bottom" {
 		form = "top" // `continue` would skip the update of a bottom-tested loop
 	}
